@@ -9,7 +9,7 @@
    proportions and substances) and the obligations are evaluated on mass_density, number_density, mass and
    data_matter(quantity=False) (rel 1e-9).
 """
-import json, random
+import json, os, random
 from . import common as C
 
 PID = "C12"
@@ -37,10 +37,12 @@ CHECK_DEADLOCK FALSE
 
 
 def known_devs():
+    """Named deviations the machine keeps: those with an open finding.  VERIF_ASSUME_FIXED=tag,tag switches deviations
+    off for a trial run against a patched copy (the findings file itself is never touched by a run)."""
     tags = set()
     for f in C.Findings(PID).open:
         tags |= set(f.get("tags", [])) & DEV_TAGS
-    return tags
+    return tags - set(filter(None, os.environ.get("VERIF_ASSUME_FIXED", "").split(",")))
 
 
 def concretisations(rec, nconc, rnd):
@@ -116,9 +118,8 @@ def run(replay=None):
     else:
         model = (3, [1, 2], [1, 2], [1, 3], [2])
         nconc = 5
-    # the machine keeps exactly the switchable deviations that still have an open finding; the mass-fraction one has no
-    # known repair and is always in the machine.  The emission run excuses whatever the machine contains.
-    enabled = set(known) | {"mass_fraction_mode"}
+    # the machine keeps exactly the deviations that still have an open finding; the emission run excuses them
+    enabled = set(known)
     r = C.run_tlc(wd, "Matter", cfg(*model, True, enabled, known))
     states, trans = r.distinct, r.generated
     tlc_wall = r.wall
